@@ -413,6 +413,9 @@ mutual
               · cases ht
           · cases ht
         | failwith => simp [simple] at hsi
+        | exec => simp [tyInstr, tySimple] at ht
+        | lambda _ _ _ => simp [simple] at hsi
+        | apply => simp [simple] at hsi
         | left _ => simp [simple] at hsi
         | right _ => simp [simple] at hsi
         | emptySet _ => simp [simple] at hsi
